@@ -95,6 +95,12 @@ CHECKS['C18'] = dict(
     text='CLAUSE decided (everything after the shared parser): Dec! and from_str call fpdec_core::str_to_dec exactly once on the literal text; with the parser replaced by "any Err kind or Ok((c,e))" the outcome sets of both post-processings - error kind with its overflow cause, or the pair (coefficient term, n_frac_digits), which the macro interpolates into Decimal::new_raw(#coeff, #n_frac_digits) - are equal for every exponent cell (-inf..-19, each of -18..38, 39..inf) and equal to oracle A.10. NOT decided: TokenStream::to_string / blank stripping, the parser itself.',
     note=TB + 'quote! interpolation order; proc-macro run-time behaviour.')
 
+CHECKS['C11'] = dict(
+    category='other', design_ref='DESIGN.md section 5 C11',
+    technique=ABSINT + ' with the formatting machinery modelled structurally (arguments of format_args!/pad_integral kept as terms); def-use taint rules at the rounding call site',
+    text='CLAUSE decided (numeric): for all 19 scales x {absent, 0..19, 40} precisions every path of Display::fmt ends in exactly one Formatter::pad_integral(coeff >= 0 of the unrounded value, "", buf) and buf is formatted from [int, frac, width] with width = min(P,18) (or the value\'s own digits), int*10^prec + frac = |x|*10^(prec-p) resp. |Rnd[thread](x/10^(p-prec))| (the signed value rounded once), 0 <= frac < 10^prec, and from [int] alone for prec = 0. NOT decided: the text core::fmt produces for the template and pad_integral\'s handling of width, fill, alignment, + and 0.',
+    note=TB + 'core::fmt; summary R (C05).')
+
 NOT_APPLICABLE = {
     'C07': 'Display/parse round trip is a value-level property of run-time digit strings across two algorithms (core::fmt and a byte parser); no structural clause that is both necessary and checkable without executing or symbolically solving; see DESIGN.md section 7.',
     'C12': 'Bit-exact float rounding of Decimal -> f64/f32 over 2^127 x 19 inputs: no sound static abstract domain in reach relates the produced bit pattern to the nearest float; see DESIGN.md section 7.',
